@@ -112,4 +112,107 @@ theorem lookup_ne_zero : ∀ (l : Labels), NoEmpty l → ∀ k, lookup l k ≠ s
 theorem get_of_lookup (l : Labels) (n v : Nat) (h : lookup l n = some v) : get l n = v := by
   simp [Labels.get, h]
 
+/-! ### the proxy's merge -/
+
+theorem mem_mergeTwo : ∀ (xs ys : List Nat) (a : Nat), a ∈ mergeTwo xs ys ↔ a ∈ xs ∨ a ∈ ys
+  | [], ys, a => by simp [mergeTwo]
+  | x :: xs, ys, a => by
+    simp only [mergeTwo]
+    induction ys with
+    | nil => simp [mergeTwo.aux]
+    | cons y ys ih =>
+      simp only [mergeTwo.aux]
+      split
+      · simp only [List.mem_cons, mem_mergeTwo xs (y :: ys) a]
+        constructor
+        · rintro (h | h | h | h)
+          · exact Or.inl (Or.inl h)
+          · exact Or.inl (Or.inr h)
+          · exact Or.inr (Or.inl h)
+          · exact Or.inr (Or.inr h)
+        · rintro ((h | h) | h | h)
+          · exact Or.inl h
+          · exact Or.inr (Or.inl h)
+          · exact Or.inr (Or.inr (Or.inl h))
+          · exact Or.inr (Or.inr (Or.inr h))
+      · split
+        · simp only [List.mem_cons, ih]
+          constructor
+          · rintro (h | (h | h) | h)
+            · exact Or.inr (Or.inl h)
+            · exact Or.inl (Or.inl h)
+            · exact Or.inl (Or.inr h)
+            · exact Or.inr (Or.inr h)
+          · rintro ((h | h) | h | h)
+            · exact Or.inr (Or.inl (Or.inl h))
+            · exact Or.inr (Or.inl (Or.inr h))
+            · exact Or.inl h
+            · exact Or.inr (Or.inr h)
+        · next h1 h2 =>
+          have hxy : x = y := by omega
+          subst hxy
+          simp only [List.mem_cons, mem_mergeTwo xs ys a]
+          constructor
+          · rintro (h | h | h)
+            · exact Or.inl (Or.inl h)
+            · exact Or.inl (Or.inr h)
+            · exact Or.inr (Or.inr h)
+          · rintro ((h | h) | h | h)
+            · exact Or.inl h
+            · exact Or.inr (Or.inl h)
+            · exact Or.inl h
+            · exact Or.inr (Or.inr h)
+
+/-- `MergeSlices` loses no element and invents none, whatever the split -/
+theorem mem_mergeSlices : ∀ (fuel : Nat) (as : List (List Nat)) (x : Nat), as.length ≤ fuel →
+    (x ∈ mergeSlices fuel as ↔ ∃ a ∈ as, x ∈ a)
+  | _, [], x, _ => by simp [mergeSlices]
+  | _, [a], x, _ => by simp [mergeSlices]
+  | 0, _ :: _ :: _, _, h => by simp at h
+  | fuel + 1, a :: b :: rest, x, h => by
+    simp only [mergeSlices]
+    have hl : (a :: b :: rest).length / 2 ≤ (a :: b :: rest).length := Nat.div_le_self _ _
+    have hpos : 1 ≤ (a :: b :: rest).length / 2 := by simp; omega
+    have hlt : (a :: b :: rest).length / 2 < (a :: b :: rest).length := by simp; omega
+    have h1 : ((a :: b :: rest).take ((a :: b :: rest).length / 2)).length ≤ fuel := by
+      rw [List.length_take]; simp at h ⊢; omega
+    have h2 : ((a :: b :: rest).drop ((a :: b :: rest).length / 2)).length ≤ fuel := by
+      rw [List.length_drop]; simp at h ⊢; omega
+    rw [mem_mergeTwo, mem_mergeSlices fuel _ x h1, mem_mergeSlices fuel _ x h2]
+    constructor
+    · rintro (⟨l, hl', hx⟩ | ⟨l, hl', hx⟩)
+      · exact ⟨l, List.mem_of_mem_take hl', hx⟩
+      · exact ⟨l, List.mem_of_mem_drop hl', hx⟩
+    · rintro ⟨l, hl', hx⟩
+      have := List.take_append_drop ((a :: b :: rest).length / 2) (a :: b :: rest)
+      rw [← this] at hl'
+      rcases List.mem_append.mp hl' with h' | h'
+      · exact Or.inl ⟨l, h', hx⟩
+      · exact Or.inr ⟨l, h', hx⟩
+
+theorem mem_insertNatDup (x : Nat) : ∀ (l : List Nat) (y : Nat), y ∈ insertNatDup x l ↔ y = x ∨ y ∈ l
+  | [], y => by simp [insertNatDup]
+  | z :: zs, y => by
+    simp only [insertNatDup]
+    split
+    · simp
+    · simp only [List.mem_cons, mem_insertNatDup x zs y]
+      constructor
+      · rintro (h | h | h)
+        · exact Or.inr (Or.inl h)
+        · exact Or.inl h
+        · exact Or.inr (Or.inr h)
+      · rintro (h | h | h)
+        · exact Or.inr (Or.inl h)
+        · exact Or.inl h
+        · exact Or.inr (Or.inr h)
+
+theorem mem_sortNatsDup : ∀ (l : List Nat) (y : Nat), y ∈ sortNatsDup l ↔ y ∈ l
+  | [], y => by simp [sortNatsDup]
+  | x :: xs, y => by
+    have ih := mem_sortNatsDup xs y
+    simp only [sortNatsDup, List.foldr] at ih ⊢
+    rw [mem_insertNatDup, ih]
+    simp
+
 end Thanos.StoreSpec
